@@ -282,7 +282,8 @@ class Engine:
 
     # ---- a sequence on one object, every value compared with its reference
     def chain(self, seq, tag):
-        run, w = self.fresh(watch=True, probes=True)
+        run, w0 = self.fresh(watch=True, probes=True)
+        w = Watch(run.inputs, probes=False)
         held = []
         for i, q in enumerate(seq):
             r = S.call(run.obj, q)
@@ -296,6 +297,12 @@ class Engine:
                           f"{q.label} after ...{prev}: {r.brief()} | alone: {self.ref[q.label].brief()} | {m}")
                 break
             held.append((q, r, S.freeze(r)))
+            for path, msg in w.diff():          # arrays / fields of the caller's inputs, cheap
+                self.fail(f"{self.cls}.{self.method_of(q)}/inputs-unchanged",
+                          self.wit(sequence=[p.label for p in seq[:i + 1]], input=path),
+                          f"{q.label} changed caller-owned {path}: {msg}")
+                w = Watch(run.inputs, probes=False)
+                break
         for q, r, fr in held:
             v = S.view(r)
             if isinstance(v, S.Opaque):
@@ -305,8 +312,10 @@ class Engine:
                 self.fail(f"{self.cls}.{self.method_of(q)}/returned-value-unchanged",
                           self.wit(sequence=[p.label for p in seq]),
                           f"the value returned by {q.label} was modified later in the sequence: {m}")
-        for path, msg in w.diff(probes=True):
-            self.fail(f"{self.cls}.{self.method_of(seq[-1])}/inputs-unchanged",
+        for path, msg in w0.diff(probes=True):
+            if "(" not in path:
+                continue                        # plain arrays / fields were attributed above
+            self.fail(f"{self.cls}.{self.method_of(seq[-1])}-in-sequence/inputs-unchanged",
                       self.wit(sequence=[p.label for p in seq], input=path),
                       f"sequence changed caller-owned {path}: {msg}")
         self.out["cases"].append((f"{self.spec.name}:{tag}:{'>'.join(p.label for p in seq[:6])}:{len(seq)}", True))
@@ -524,10 +533,11 @@ def main():
     args = parse_args()
     if args.out:
         args.out = os.path.abspath(args.out)
-    replay = None
+    replay, replay_check = None, None
     if args.replay:
         with open(os.path.abspath(args.replay)) as f:
             replay = json.load(f)
+        replay_check = replay.get("check")
         replay = replay.get("witness", replay)
     scope = ("all classes of specs/stateful_registry.py (Network un/directed, InteractingNetworks, Spatial/Geo/"
              "Res networks, VisibilityGraph, ClimateNetwork + 8 data-derived subclasses incl. coupled and event "
@@ -575,6 +585,8 @@ def main():
                 if len(rep.samples) < 8:
                     rep.samples.append(jsonable(smp))
             for check, wit, detail in out["fail"]:
+                if replay is not None and replay_check and "spec" not in replay and check != replay_check:
+                    continue                # the helper group is re-run as a whole; keep the case asked for
                 rep.fail(check, wit, detail)
             for s in out["skip"]:
                 rep.skip(s)
